@@ -145,17 +145,27 @@ func Describe(s string) { beatDesc.Store(s) }
 
 var blockedInGlb = regexp.MustCompile(`(?s)^goroutine (\d+) \[(sync\.Mutex\.Lock|sync\.RWMutex\.R?Lock|semacquire|sync\.Cond\.Wait)[^\]]*\]:.*github\.com/whoisnian/glb/`)
 
-// stuck returns, per goroutine id, the stacks of goroutines waiting on a lock with a glb frame on their stack.
-func stuck() (map[string]string, string) {
+// a goroutine with a glb frame on its stack that can still move: whoever holds the lock the others wait for is one of
+// these as long as the lane, the logger, the filter is merely busy
+var activeInGlb = regexp.MustCompile(`(?s)^goroutine \d+ \[(running|runnable|syscall|IO wait|sleep)[^\]]*\]:.*github\.com/whoisnian/glb/`)
+
+var waitSuffix = regexp.MustCompile(`^(goroutine \d+ \[[^,\]]*)[^\]]*\]`)
+
+// stuck returns, per goroutine id, the stacks of goroutines waiting on a lock with a glb frame on their stack (the
+// "N minutes" part of the header removed), and how many goroutines with a glb frame are not waiting at all.
+func stuck() (map[string]string, int, string) {
 	buf := make([]byte, 8<<20)
 	buf = buf[:runtime.Stack(buf, true)]
 	out := map[string]string{}
+	active := 0
 	for _, g := range strings.Split(string(buf), "\n\n") {
 		if m := blockedInGlb.FindStringSubmatch(g); m != nil {
-			out[m[1]] = g
+			out[m[1]] = waitSuffix.ReplaceAllString(g, "$1]")
+		} else if activeInGlb.MatchString(g) {
+			active++
 		}
 	}
-	return out, string(buf)
+	return out, active, string(buf)
 }
 
 func startWatchdog() {
@@ -170,15 +180,21 @@ func startWatchdog() {
 			if b == 0 || time.Since(time.Unix(0, b)) < hangAfter {
 				continue
 			}
-			first, _ := stuck()
-			if len(first) == 0 {
+			// stuck means: goroutines wait on a lock inside glb code, and nothing that is inside glb code can move - at
+			// two moments 15 s apart, for the same goroutines on the same stacks. A lock that is merely contended (a
+			// hammer test on a loaded machine) always has a holder that is running or runnable.
+			first, active, _ := stuck()
+			if len(first) == 0 || active > 0 {
 				continue
 			}
 			time.Sleep(15 * time.Second)
 			if beat.Load() != b {
 				continue
 			}
-			second, buf := stuck()
+			second, active, buf := stuck()
+			if active > 0 {
+				continue
+			}
 			var culprits []string
 			for id, g := range second {
 				if first[id] == g { // the same goroutine, on the same stack, 15 s later
